@@ -40,7 +40,10 @@ def build_system(shape):
         key = 0
         prev_bb = None
         for r in range(nres):
-            old_resid = (r + 1) * (3 if gapped else 1) + (10 if cidx else 0)
+            if gapped == 'same':
+                old_resid = r + 1            # every chain numbers its residues from 1 (homodimer style)
+            else:
+                old_resid = (r + 1) * (3 if gapped else 1) + (10 if cidx else 0)
             pos = np.array([0.3 * gidx, 0.1 * (gidx % 2), 0.05 * cidx])
             bb = key
             mol.add_node(bb, atomname=bb_name, resname='ALA', resid=r + 1, _old_resid=old_resid, chain=chain,
@@ -268,8 +271,10 @@ def run(ctx):
     for chains in ((3,), (2, 1), (4,), (2, 2), (3, 1)):
         total = sum(chains)
         ndirected = total * (total - 1)
-        for sc, xlink, gapped in itertools.product((False, True), (False, True), (False, True)):
+        for sc, xlink, gapped in itertools.product((False, True), (False, True), (False, True, 'same')):
             if xlink and max(chains) < 3:
+                continue
+            if gapped == 'same' and len(chains) < 2:
                 continue
             if total == 4 and ctx.quick and gapped and not sc:
                 continue
@@ -278,7 +283,10 @@ def run(ctx):
                 variants = [(rev, ab, w, sep, default_names) for rev in (False, True) for ab in (False, True)
                             for w in WINDOWS for sep in (0, 1, 2, 3)]
             else:
-                variants = [(False, False, w, sep, default_names) for w in WINDOWS[:2] for sep in (1, 2)]
+                variants = [(False, False, WINDOWS[0], 1, default_names), (False, False, WINDOWS[1], 2, default_names),
+                            (True, False, WINDOWS[0], 2, default_names)]
+                if gapped is True or (sc and not xlink and gapped is False):
+                    variants = variants[:1]
                 if not ctx.quick:
                     variants = [(rev, False, w, sep, default_names) for rev in (False, True) for w in WINDOWS for sep in (0, 1, 2, 3)]
             step = max(1, (1 << ndirected) // 16)
